@@ -19,12 +19,22 @@ func init() { registerFact("Writes.lean", genWrites) }
 func genWrites(r *Repo) (string, error) {
 	nodeFields := map[string]bool{"route": true, "inode": true, "key": true, "childKeys": true, "children": true,
 		"params": true, "paramChildIndex": true, "wildcardChildIndex": true}
-	var edges, assigns, adds, resets []string
-	for _, file := range []string{"tree.go", "node.go", "txn.go", "iter.go", "fox.go"} {
+	files := []string{"tree.go", "node.go", "txn.go", "iter.go", "fox.go"}
+	oc := &originCtx{r: r}
+	for _, file := range files {
 		f := r.Files[file]
 		if f == nil {
 			return "", fmt.Errorf("missing file %s", file)
 		}
+		for _, d := range f.Decls {
+			if fd, ok := d.(*ast.FuncDecl); ok && fd.Body != nil {
+				oc.funcs = append(oc.funcs, fd)
+			}
+		}
+	}
+	var edges, edgeArgs, assigns, adds, resets []string
+	for _, file := range files {
+		f := r.Files[file]
 		for _, d := range f.Decls {
 			fd, ok := d.(*ast.FuncDecl)
 			if !ok || fd.Body == nil {
@@ -34,61 +44,308 @@ func genWrites(r *Repo) (string, error) {
 			if fd.Recv != nil && len(fd.Recv.List) == 1 {
 				fn = recvName(fd.Recv.List[0].Type) + "." + fn
 			}
-			if file == "fox.go" && fn != "Router.newTree" || file == "txn.go" && false {
+			if file == "fox.go" && fn != "Router.newTree" {
 				// fox.go: only newTree builds nodes; the request context has fields with the same names
 				continue
 			}
-			if strings.HasPrefix(fn, "Txn.") && (fn == "Txn.Lookup") {
+			if fn == "Txn.Lookup" {
 				continue
 			}
-			ast.Inspect(fd.Body, func(n ast.Node) bool {
-				switch x := n.(type) {
-				case *ast.CallExpr:
-					if se, ok := x.Fun.(*ast.SelectorExpr); ok {
-						if se.Sel.Name == "updateEdge" {
-							edges = append(edges, fn+"|"+r.Text(se.X))
-						}
-						if se.Sel.Name == "Add" && strings.HasSuffix(r.Text(se.X), ".writable") && len(x.Args) > 0 {
-							adds = append(adds, fn+"|"+r.Text(x.Args[0]))
-						}
-					}
-				case *ast.AssignStmt:
-					if x.Tok != token.ASSIGN && x.Tok != token.DEFINE {
+			// the copy-on-write search is modelled statement by statement (Model/Heap `cow`): its sites stay textual.
+			// Everywhere else a site is recorded by the ORIGIN of the node written to (built by newNode / newNodeFromRef /
+			// new(node) in this transaction, a clone, a node of the cloned search path result.p / .pp / .ppp, …), followed
+			// through local variables and through the parameters of helper functions to their call sites - not by the
+			// names of functions and variables.
+			textual := fn == "tXn.copyOnWriteSearch"
+			class := func(e ast.Expr) string {
+				if textual {
+					return "cow|" + r.Text(e)
+				}
+				return oc.classOf(fd, e, 0)
+			}
+			var walk func(list []ast.Stmt)
+			visitExpr := func(n ast.Node) {
+				ast.Inspect(n, func(n ast.Node) bool {
+					if _, ok := n.(*ast.FuncLit); ok {
 						return true
 					}
-					for _, lhs := range x.Lhs {
-						target := lhs
-						if ie, ok := target.(*ast.IndexExpr); ok {
-							target = ie.X
-						}
-						if se, ok := target.(*ast.SelectorExpr); ok && nodeFields[se.Sel.Name] {
-							// only node-typed receivers: the tXn / iTree / Iter / cTx structs have other field names, except
-							// Route.route-like names which do not occur; keep everything and let the theorem enumerate
-							assigns = append(assigns, fn+"|"+r.Text(lhs))
-						}
-						if se, ok := lhs.(*ast.SelectorExpr); ok && se.Sel.Name == "writable" && len(x.Rhs) == 1 && r.Text(x.Rhs[0]) == "nil" {
-							resets = append(resets, fn)
+					if x, ok := n.(*ast.CallExpr); ok {
+						if se, ok := x.Fun.(*ast.SelectorExpr); ok {
+							if se.Sel.Name == "updateEdge" {
+								edges = append(edges, class(se.X))
+								if len(x.Args) == 1 {
+									edgeArgs = append(edgeArgs, class(x.Args[0]))
+								}
+							}
+							if se.Sel.Name == "Add" && strings.HasSuffix(r.Text(se.X), ".writable") && len(x.Args) > 0 {
+								adds = append(adds, class(x.Args[0]))
+							}
 						}
 					}
+					return true
+				})
+			}
+			// statements are walked block by block so that `x[i] = new(node)` directly before `x[i].f = …` is seen
+			walk = func(list []ast.Stmt) {
+				fresh := map[string]bool{} // text of slots assigned a new node earlier in this block
+				for _, st := range list {
+					switch x := st.(type) {
+					case *ast.AssignStmt:
+						visitExpr(x)
+						if x.Tok == token.ASSIGN || x.Tok == token.DEFINE {
+							for i, lhs := range x.Lhs {
+								if se, ok := lhs.(*ast.SelectorExpr); ok && se.Sel.Name == "writable" && len(x.Rhs) == 1 && r.Text(x.Rhs[0]) == "nil" {
+									resets = append(resets, fn)
+								}
+								if _, ok := lhs.(*ast.IndexExpr); ok && i < len(x.Rhs) && oc.isBuild(x.Rhs[i]) {
+									fresh[r.Text(lhs)] = true
+								}
+								target := lhs
+								idx := ""
+								if ie, ok := target.(*ast.IndexExpr); ok {
+									target = ie.X
+									idx = "[]"
+								}
+								se, ok := target.(*ast.SelectorExpr)
+								if !ok || !nodeFields[se.Sel.Name] {
+									continue
+								}
+								base := ""
+								switch {
+								case fresh[r.Text(se.X)]:
+									base = "built" // a slot that was assigned a new node just before, in the same block
+								case fn == "node.updateEdge" && fd.Recv != nil && len(fd.Recv.List[0].Names) == 1 && r.Text(se.X) == fd.Recv.List[0].Names[0].Name:
+									base = "updateEdge-receiver"
+								default:
+									base = class(se.X)
+								}
+								assigns = append(assigns, base+"."+se.Sel.Name+idx)
+							}
+						}
+					case *ast.BlockStmt:
+						walk(x.List)
+					case *ast.IfStmt:
+						if x.Init != nil {
+							walk([]ast.Stmt{x.Init})
+						}
+						visitExpr(x.Cond)
+						walk(x.Body.List)
+						if x.Else != nil {
+							walk([]ast.Stmt{x.Else})
+						}
+					case *ast.ForStmt:
+						if x.Init != nil {
+							walk([]ast.Stmt{x.Init})
+						}
+						if x.Cond != nil {
+							visitExpr(x.Cond)
+						}
+						if x.Post != nil {
+							walk([]ast.Stmt{x.Post})
+						}
+						walk(x.Body.List)
+					case *ast.RangeStmt:
+						visitExpr(x.X)
+						walk(x.Body.List)
+					case *ast.SwitchStmt:
+						if x.Init != nil {
+							walk([]ast.Stmt{x.Init})
+						}
+						if x.Tag != nil {
+							visitExpr(x.Tag)
+						}
+						for _, c := range x.Body.List {
+							if cc, ok := c.(*ast.CaseClause); ok {
+								for _, e := range cc.List {
+									visitExpr(e)
+								}
+								walk(cc.Body)
+							}
+						}
+					case *ast.LabeledStmt:
+						walk([]ast.Stmt{x.Stmt})
+					default:
+						visitExpr(st)
+					}
 				}
-				return true
-			})
+			}
+			walk(fd.Body.List)
 		}
 	}
-	for _, l := range []*[]string{&edges, &assigns, &adds, &resets} {
+	for _, l := range []*[]string{&edges, &edgeArgs, &assigns, &adds, &resets} {
 		sort.Strings(*l)
+		*l = dedupSorted(*l)
 	}
 	var sb strings.Builder
 	sb.WriteString("namespace Fox.Generated\n\n")
-	sb.WriteString("/-- `function|receiver` of every call of updateEdge (the only in-place write of a child slot) -/\n")
-	fmt.Fprintf(&sb, "def updateEdgeCalls : List String := %s\n", leanStrList(edges))
-	sb.WriteString("/-- `function|lhs` of every assignment to a node field -/\n")
+	sb.WriteString("/-- origin of the receiver of every call of updateEdge (the only in-place write of a child slot) -/\n")
+	fmt.Fprintf(&sb, "def updateEdgeReceivers : List String := %s\n", leanStrList(edges))
+	sb.WriteString("/-- origin of the node linked in by every call of updateEdge -/\n")
+	fmt.Fprintf(&sb, "def updateEdgeArgs : List String := %s\n", leanStrList(edgeArgs))
+	sb.WriteString("/-- `origin.field` of every assignment to a node field -/\n")
 	fmt.Fprintf(&sb, "def nodeFieldAssigns : List String := %s\n", leanStrList(assigns))
-	sb.WriteString("/-- `function|argument` of every writable.Add -/\n")
+	sb.WriteString("/-- origin of the argument of every writable.Add -/\n")
 	fmt.Fprintf(&sb, "def writableAdds : List String := %s\n", leanStrList(adds))
 	sb.WriteString("/-- functions that reset the writable cache -/\n")
 	fmt.Fprintf(&sb, "def writableResets : List String := %s\n", leanStrList(resets))
 	fmt.Fprintf(&sb, "def writesSha : String := %s\n", leanStr(r.Sha("tree.go", "node.go", "txn.go")))
 	sb.WriteString("\nend Fox.Generated\n")
 	return sb.String(), nil
+}
+
+func dedupSorted(l []string) []string {
+	var out []string
+	for i, x := range l {
+		if i == 0 || x != l[i-1] {
+			out = append(out, x)
+		}
+	}
+	return out
+}
+
+// originCtx classifies where a node expression comes from.
+type originCtx struct {
+	r     *Repo
+	funcs []*ast.FuncDecl
+}
+
+// isBuild: an expression that creates a node
+func (oc *originCtx) isBuild(e ast.Expr) bool {
+	switch x := e.(type) {
+	case *ast.ParenExpr:
+		return oc.isBuild(x.X)
+	case *ast.CallExpr:
+		fn := oc.r.Text(x.Fun)
+		if fn == "newNode" || fn == "newNodeFromRef" {
+			return true
+		}
+		if fn == "new" && len(x.Args) == 1 && oc.r.Text(x.Args[0]) == "node" {
+			return true
+		}
+	case *ast.UnaryExpr:
+		if cl, ok := x.X.(*ast.CompositeLit); ok && x.Op.String() == "&" && oc.r.Text(cl.Type) == "node" {
+			return true
+		}
+	}
+	return false
+}
+
+func (oc *originCtx) classOf(fd *ast.FuncDecl, e ast.Expr, depth int) string {
+	r := oc.r
+	if depth > 4 {
+		return "unknown:depth"
+	}
+	if oc.isBuild(e) {
+		return "built"
+	}
+	switch x := e.(type) {
+	case *ast.ParenExpr:
+		return oc.classOf(fd, x.X, depth)
+	case *ast.CallExpr:
+		if se, ok := x.Fun.(*ast.SelectorExpr); ok && se.Sel.Name == "clone" && len(x.Args) == 0 {
+			return "clone"
+		}
+		return "unknown:call " + r.Text(x.Fun)
+	case *ast.SelectorExpr:
+		// a field of the result of the copy-on-write search
+		if id, ok := x.X.(*ast.Ident); ok {
+			for _, rhs := range oc.defsOf(fd, id.Name) {
+				if c, ok := rhs.(*ast.CallExpr); ok {
+					if se, ok := c.Fun.(*ast.SelectorExpr); ok && se.Sel.Name == "copyOnWriteSearch" {
+						return "searched." + x.Sel.Name
+					}
+				}
+			}
+		}
+		return "unknown:" + r.Text(x)
+	case *ast.Ident:
+		// a parameter: joined over the call sites
+		if fd.Type.Params != nil {
+			pos := 0
+			for _, f := range fd.Type.Params.List {
+				for _, nm := range f.Names {
+					if nm.Name == x.Name {
+						return oc.paramClass(fd, pos, depth)
+					}
+					pos++
+				}
+			}
+		}
+		defs := oc.defsOf(fd, x.Name)
+		if len(defs) == 0 {
+			return "unknown:" + x.Name
+		}
+		set := map[string]bool{}
+		for _, d := range defs {
+			set[oc.classOf(fd, d, depth+1)] = true
+		}
+		var l []string
+		for k := range set {
+			l = append(l, k)
+		}
+		sort.Strings(l)
+		return strings.Join(l, "+")
+	}
+	return "unknown:" + r.Text(e)
+}
+
+// defsOf: the right-hand sides assigned to the local variable `name` anywhere in fd
+func (oc *originCtx) defsOf(fd *ast.FuncDecl, name string) []ast.Expr {
+	var out []ast.Expr
+	ast.Inspect(fd.Body, func(n ast.Node) bool {
+		switch x := n.(type) {
+		case *ast.AssignStmt:
+			if len(x.Lhs) == len(x.Rhs) {
+				for i, l := range x.Lhs {
+					if id, ok := l.(*ast.Ident); ok && id.Name == name {
+						out = append(out, x.Rhs[i])
+					}
+				}
+			}
+		case *ast.ValueSpec:
+			for i, nm := range x.Names {
+				if nm.Name == name && i < len(x.Values) {
+					out = append(out, x.Values[i])
+				}
+			}
+		}
+		return true
+	})
+	return out
+}
+
+func (oc *originCtx) paramClass(fd *ast.FuncDecl, pos, depth int) string {
+	set := map[string]bool{}
+	for _, caller := range oc.funcs {
+		ast.Inspect(caller.Body, func(n ast.Node) bool {
+			c, ok := n.(*ast.CallExpr)
+			if !ok || pos >= len(c.Args) {
+				return true
+			}
+			name := ""
+			switch f := c.Fun.(type) {
+			case *ast.Ident:
+				if fd.Recv == nil {
+					name = f.Name
+				}
+			case *ast.SelectorExpr:
+				if fd.Recv != nil {
+					name = f.Sel.Name
+				}
+			}
+			if name == fd.Name.Name {
+				set[oc.classOf(caller, c.Args[pos], depth+1)] = true
+			}
+			return true
+		})
+	}
+	if len(set) == 0 {
+		return "unknown:uncalled parameter"
+	}
+	var l []string
+	for k := range set {
+		l = append(l, k)
+	}
+	sort.Strings(l)
+	return strings.Join(l, "+")
 }
